@@ -763,10 +763,10 @@ def h_messages(env):
             acc.append(f)
     bad = []
     for a in sorted(acc):
-        va = env.call(getattr, m, a)
+        va = env.call(lambda: getattr(m, a))
         if isinstance(va, Raised):
             continue
-        vb = env.call(getattr, d, a)
+        vb = env.call(lambda: getattr(d, a))
         if isinstance(vb, Raised):
             bad.append("%s: decoded raises %r" % (a, vb))
         else:
@@ -883,6 +883,8 @@ def build_spec(spec):
         dcop.add_constraint(NAryMatrixRelation([v10, v2], [[0, -1, 2 ** 40], [3, 0, 1], [5, 5, 0]], name="k0"))
         dcop.add_constraint(constraint_from_str("k2", "v2 * 10 + v9", [v9, v10, v2]))
         dcop.add_variable(Variable("w", Domain("dw", "", ["only"])))
+        # more than ten values: positions 10, 11 of the encoded tuple must not sort as text
+        dcop.add_variable(Variable("w12", Domain("d12", "", list(range(20, 8, -1))), 9))
         return dcop
     if spec in ("costdict-str-domain", "costdict-int-domain"):
         vals = ["b", "a", "c"] if spec == "costdict-str-domain" else [10, 0, 5]
@@ -890,6 +892,16 @@ def build_spec(spec):
         y1 = VariableWithCostDict("y1", d, {vals[0]: 1.5, vals[1]: 0, vals[2]: -2}, vals[1])
         y2 = VariableWithCostDict("y2", d, {vals[2]: 4})
         dcop.add_constraint(constraint_from_str("q", "1 if y1 == y2 else 0", [y1, y2]))
+        return dcop
+    if spec == "other-relations":
+        # the remaining relation classes that carry the SimpleRepr mixin
+        from pydcop.dcop.relations import UnaryBooleanRelation, NeutralRelation, ConditionalRelation
+        d = Domain("d", "", [10, 0, 5])
+        r1, r2, r3 = Variable("r1", d, 0), Variable("r2", d), Variable("r3", d, 5)
+        dcop.add_constraint(UnaryBooleanRelation("ub", r1))
+        dcop.add_constraint(NeutralRelation([r1, r2], "neutral"))
+        dcop.add_constraint(ConditionalRelation(UnaryBooleanRelation("cond", r3), constraint_from_str("then", "r2 * 2 + r3", [r1, r2, r3]),
+                                                name="cr"))
         return dcop
     if spec == "sliced":
         # a constraint obtained by slicing (partial ExpressionFunction with fixed variables) and a sliced matrix
@@ -1127,7 +1139,7 @@ def _sorted_lists(x):
     return x
 
 
-SPECS = ["mixed", "yaml", "chain", "sliced", "costdict-str-domain", "costdict-int-domain"]
+SPECS = ["mixed", "yaml", "chain", "sliced", "other-relations", "costdict-str-domain", "costdict-int-domain"]
 
 
 def _compdef_shapes(tier):
@@ -1173,7 +1185,8 @@ Contract(
                  "links and neighbours are compared as sets"],
     desc="ComputationDef of every node of the four graph models built from generated DCOPs (expression, matrix, sliced constraints; "
          "plain, binary, cost-function, noisy, cost-dict, external variables), every algorithm of the model: decoded definition has the "
-         "same node, links, neighbours, variable costs, relation values on every assignment and algorithm parameters",
+         "same node, links, neighbours, variable costs, relation values on every assignment and algorithm parameters; "
+         "also UnaryBoolean/Neutral/Conditional relations, a 12-value domain, yaml-loaded DCOP with an external variable",
 )
 
 
